@@ -118,13 +118,24 @@ CHECKS = {
                 note="Trusted: rustc's MIR dump, executor semantics, z3. The builders and item_impl's helpers are opaque (only where their results flow is examined). "
                      "`Display for TokenStream` is outside the encoding: the native differential (R) on the listed (item, trait list, dump placement, entry point) tuples is sampling, and said so.",
                 tech="symbolic execution of rustc MIR + z3, native replay of models; native differential of expansions with / without dump for the printing step"),
+    "C16": dict(engine="E3 mir-smt", ref="DESIGN.md §6 C16",
+                text="Symbolic path execution with z3 of the panic-freedom kernel: every structural panic site of the macro's own code - `unreachable!()`, index bounds `assert`s, "
+                     "calls of unwrap / expect / Index on data the macro built - is found in the MIR of the current tree and must be unreachable on every feasible path, either for every "
+                     "argument value of its function or in every calling context (builders with all configuration atoms symbolic, the five comparison bodies with all 20 atoms of a field, "
+                     "the two core dispatch loops with the Deref builder inlined). Restricted scope: totality over arbitrary token streams (syn / structmeta parsers, parse_quote!, "
+                     "Ident::new), well-formedness of the printed tokens and determinism are NOT decided by the solver; they are sampled natively (fresh expander processes on a corpus) "
+                     "and reported as sampling.",
+                note="Trusted: rustc's MIR dump, executor semantics and callee models (panic-aware models of unwrap / expect / Index; bounds checks are the MIR's own assert terminators), z3. "
+                     "Restricted claim: the panic-freedom kernel over the configuration space; partial calls that depend on token text are listed in the evidence and only exercised natively. "
+                     "A feasible path into a panic site is a VIOLATION only when an input built from the model (or the native battery) makes the real macro panic; otherwise INCONCLUSIVE. "
+                     "Stated invariant: fields of `Fields::Named` have identifiers (syn).",
+                tech="symbolic execution of rustc MIR + z3 (reachability of panic sites), native replay; native sampling of totality / well-formedness / determinism across expander processes"),
     "C18": dict(engine="E1 kani-gen", ref="DESIGN.md §6 C18",
                 text="Kani/CBMC decides pointer identity of deref()/deref_mut() with the field, Target identity (type-level) and that writes land in the field, for all field values.",
                 note=E1_NOTE + " The arity rejection (0 or >=2 fields) is outside this check.", tech="Kani/CBMC bounded model checking of macro-generated Deref/DerefMut impls"),
 }
 
 NOT_APPLICABLE = {
-    "C16": "quantifies over arbitrary token streams through syn's parser; Kani cannot compile TokenStream code here (ICE) and the MIR executor treats parsing as opaque; determinism is a whole-crate data-flow fact (DESIGN.md §6)",
     "C20": "the deciding engine is rustc's type checker and lint pass; there is no solver encoding of it (compile failures of generated programs are still reported as rustc verdicts by the E1 checks)",
 }
 
